@@ -53,11 +53,14 @@ class SymAlg(object):
         z3 = self.z3
         a = z3.simplify(a)
         k = a.get_id()
+        from .sym import CTX
+        if k in CTX.sqrt_defs:          # same radicand as a sqrt the code took: same symbol
+            return CTX.sqrt_defs[k][0]
         if k not in self._sq:
             r = z3.Real('osq!%d' % len(self._sq))
-            self._sq[k] = r
+            self._sq[k] = (r, a)        # keep `a` alive: ids of freed ASTs are recycled
             self.side += [r >= 0, r * r == a]
-        return self._sq[k]
+        return self._sq[k][0]
     def ite(self, c, a, b): return self.z3.If(c, a, b)
     def eq(self, a, b): return a == b
     def le(self, a, b): return a <= b
